@@ -70,7 +70,7 @@ def draw_knobs(rng: Rng, profile: str):
         client_faults=p["client_faults"],
         n_bad_clients=kr.pick([1, 1, 2, 3]) if p["client_faults"] else 0,
         reset_on_drain=kr.chance(0.6),
-        children=False,
+        children=faulty and kr.chance(0.25),
         hash_salt=kr.randrange(1 << 30),
     )
     return knobs
